@@ -8,8 +8,14 @@ package connectconformance
 // appended to <logfile> as one JSON line.
 
 import (
+	"bufio"
 	"context"
+	"crypto/sha256"
 	"encoding/json"
+	"net"
+	"os/signal"
+	"syscall"
+	"time"
 	"fmt"
 	"io"
 	"os"
@@ -32,8 +38,26 @@ func TestMain(m *testing.M) {
 }
 
 type verifHelperLog struct {
-	mu sync.Mutex
-	fh *os.File
+	mu  sync.Mutex
+	fh  *os.File
+	seq net.Conn // optional: synchronous event sequencer of the harness
+	rd  *bufio.Reader
+}
+
+// emit sends an event to the harness's sequencer and waits for the acknowledgement, so that the
+// event's position in the global order is fixed before the caller proceeds.
+func (l *verifHelperLog) emit(v map[string]any) {
+	l.put(v)
+	if l.seq == nil {
+		return
+	}
+	b, _ := json.Marshal(v)
+	l.mu.Lock()
+	defer l.mu.Unlock()
+	if _, err := l.seq.Write(append(b, '\n')); err != nil {
+		return
+	}
+	_, _ = l.rd.ReadString('\n')
 }
 
 func (l *verifHelperLog) put(v any) {
@@ -60,6 +84,11 @@ func verifHelperMain(args []string) int {
 			return 65
 		}
 		log.fh = fh
+	}
+	if len(args) > 3 && args[3] != "-" {
+		if conn, err := net.Dial("unix", args[3]); err == nil {
+			log.seq, log.rd = conn, bufio.NewReader(conn)
+		}
 	}
 	switch role {
 	case "refclient":
@@ -113,6 +142,24 @@ func verifHelperClient(fault string, log *verifHelperLog) int {
 			}
 			nreq++
 			log.put(map[string]any{"ev": "recv", "name": req.TestName})
+			if log.seq != nil {
+				var nameHdr []string
+				for _, h := range req.RequestHeaders {
+					if strings.EqualFold(h.Name, "x-test-case-name") {
+						nameHdr = append(nameHdr, h.Value...)
+					}
+				}
+				probe := false
+				if c, err := net.DialTimeout("tcp", net.JoinHostPort(req.Host, strconv.Itoa(int(req.Port))), 3*time.Second); err == nil {
+					probe = true
+					_ = c.Close()
+				}
+				log.emit(map[string]any{"e": "Send", "name": req.TestName, "addr": int(req.Port),
+					"inst": verifInst(int(req.Protocol), int(req.HttpVersion), len(req.ServerTlsCert) > 0, req.ClientTlsCreds != nil),
+					"probe": probe, "hdr": len(nameHdr) == 1 && nameHdr[0] == req.TestName,
+					"cert": fmt.Sprintf("%x", sha256.Sum256(req.ServerTlsCert))[:12],
+					"codec": int(req.Codec), "compression": int(req.Compression)})
+			}
 			if err := internal.WriteDelimitedMessage(inW, &req); err != nil {
 				return
 			}
@@ -173,11 +220,50 @@ func verifHelperServer(fault string, log *verifHelperLog) int {
 		return 0
 	}
 	log.put(map[string]any{"ev": "start"})
-	err := referenceserver.Run(context.Background(), []string{"referenceserver"}, os.Stdin, os.Stdout, os.Stderr)
+	ctx, cancel := context.WithCancel(context.Background())
+	defer cancel()
+	var err error
+	if log.seq == nil {
+		err = referenceserver.Run(ctx, []string{"referenceserver"}, os.Stdin, os.Stdout, os.Stderr)
+	} else {
+		// read the runner's request ourselves (to know the instance), hand it to the real server,
+		// intercept the server's answer to learn the address, announce Up, then forward the answer
+		var req conformancev1.ServerCompatRequest
+		if rerr := internal.ReadDelimitedMessage(os.Stdin, &req, "runner", 1<<62, 64*1024*1024); rerr != nil {
+			return 1
+		}
+		inR, inW := io.Pipe()
+		outR, outW := io.Pipe()
+		go func() {
+			_ = internal.WriteDelimitedMessage(inW, &req)
+			_ = inW.Close()
+		}()
+		sigs := make(chan os.Signal, 1)
+		signal.Notify(sigs, syscall.SIGTERM, syscall.SIGINT)
+		var addr int
+		go func() {
+			var resp conformancev1.ServerCompatResponse
+			if rerr := internal.ReadDelimitedMessage(outR, &resp, "refserver", 1<<62, 64*1024*1024); rerr != nil {
+				return
+			}
+			addr = int(resp.Port)
+			log.emit(map[string]any{"e": "Up", "addr": addr, "cert": fmt.Sprintf("%x", sha256.Sum256(resp.PemCert))[:12],
+				"inst": verifInst(int(req.Protocol), int(req.HttpVersion), req.UseTls, len(req.ClientTlsCert) > 0)})
+			_ = internal.WriteDelimitedMessage(os.Stdout, &resp)
+			<-sigs
+			log.emit(map[string]any{"e": "Stop", "addr": addr})
+			cancel()
+		}()
+		err = referenceserver.Run(ctx, []string{"referenceserver", "-bind", "127.0.0.1"}, inR, outW, os.Stderr)
+	}
 	if err != nil {
 		log.put(map[string]any{"ev": "exit", "code": 1, "err": err.Error()})
 		return 1
 	}
 	log.put(map[string]any{"ev": "exit", "code": 0})
 	return 0
+}
+
+func verifInst(protocol, version int, tls, cert bool) string {
+	return fmt.Sprintf("p%d/v%d/tls=%v/cert=%v", protocol, version, tls, cert)
 }
